@@ -67,7 +67,23 @@ func classifySink(n *Node) *sinkInfo {
 		}
 		return &sinkInfo{kind: kind, what: "SetDAIncluded", item: item}
 	}
-	if s, ok := n.In.(*ssa.Send); ok {
+	// a send may be a plain Send instruction or a sending case of a select
+	var sendChan, sendVal ssa.Value
+	switch s := n.In.(type) {
+	case *ssa.Send:
+		sendChan, sendVal = s.Chan, s.X
+	case *ssa.Select:
+		for _, st := range s.States {
+			if st.Dir == types.SendOnly {
+				ch := TermOf(st.Chan, n.Ctx)
+				if ch.Op == "field" && (ch.Name == "headerInCh" || ch.Name == "dataInCh") {
+					sendChan, sendVal = st.Chan, st.Send
+				}
+			}
+		}
+	}
+	if sendChan != nil {
+		s := struct{ Chan, X ssa.Value }{sendChan, sendVal}
 		ch := TermOf(s.Chan, n.Ctx)
 		if ch.Op != "field" || (ch.Name != "headerInCh" && ch.Name != "dataInCh") {
 			return nil
